@@ -365,4 +365,50 @@ def fnStringJoin (items : List Str) (separator : Option Str) : Except FOStrings.
   | none => .error .XPTY0004
   | some sep => .ok (stringJoin items sep)
 
+/-! ## collations.py: `CollationManager` for the two collations defined on code points
+(`UNICODE_CODEPOINT_COLLATION`, the default, and `HTML_ASCII_CASE_INSENSITIVE_COLLATION`);
+the 2.0+ functions `contains`, `starts-with`, `ends-with`, `substring-before/after`, `compare` call
+`manager.contains/startswith/endswith/find/strcoll`. -/
+
+open EPV.FOStrings (Collation)
+
+/-- `s.translate(_ASCII_LOWER)` with `_ASCII_LOWER = {cp: cp + 32 for cp in range(65, 91)}` -/
+def asciiLower (s : Str) : Str := s.map fun cp => if 65 ≤ cp ∧ cp < 91 then cp + 32 else cp
+
+/-- `manager.strxfrm`: `unicode_codepoint_strxfrm` (identity) / `html_ascii_strxfrm` -/
+def strxfrm : Collation → Str → Str
+  | .codepoint, s => s
+  | .htmlAscii, s => asciiLower s
+
+/-- `manager.strcoll` (`unicode_codepoint_strcoll` / `html_ascii_strcoll`) with the sign
+normalisation of `evaluate__compare` -/
+def compareC : Collation → Str → Str → Int
+  | .codepoint, s1, s2 => compare s1 s2
+  | .htmlAscii, s1, s2 => compare (asciiLower s1) (asciiLower s2)
+
+/-- `CollationManager.contains`: `self.strxfrm(b) in self.strxfrm(a)` -/
+def containsC (col : Collation) (a b : Str) : Bool := pyIn (strxfrm col b) (strxfrm col a)
+
+/-- `CollationManager.find`: `self.strxfrm(a).find(self.strxfrm(b))` -/
+def findC (col : Collation) (a b : Str) : Option Nat := pyFind (strxfrm col b) (strxfrm col a)
+
+/-- `CollationManager.startswith` -/
+def startsWithC (col : Collation) (a b : Str) : Bool := pyStartsWith (strxfrm col a) (strxfrm col b)
+
+/-- `CollationManager.endswith` -/
+def endsWithC (col : Collation) (a b : Str) : Bool := pyEndsWith (strxfrm col a) (strxfrm col b)
+
+/-- `evaluate__substring_functions` (2.0+), symbol `substring-before`:
+`index = manager.find(arg1, arg2)` … `return arg1[:index]` -/
+def substringBeforeC (col : Collation) (arg1 arg2 : Str) : Str :=
+  match findC col arg1 arg2 with
+  | none => []
+  | some index => arg1.take index
+
+/-- symbol `substring-after`: `return arg1[index + len(arg2):]` -/
+def substringAfterC (col : Collation) (arg1 arg2 : Str) : Str :=
+  match findC col arg1 arg2 with
+  | none => []
+  | some index => arg1.drop (index + arg2.length)
+
 end EPV.Strings
